@@ -2,6 +2,7 @@
 From RP2V Require Import Base.Prelude Model.Entry Model.EntryL1.
 From RP2V Require Import Model.EntryJp.
 From RP2V Require Import Model.EntryFull.
+From RP2V Require Import Model.EntryL6.
 Open Scope Z_scope.
 
 Definition entry (cmd : Z) (args : list Z) : list Z :=
@@ -25,4 +26,9 @@ Definition entry (cmd : Z) (args : list Z) : list Z :=
   if cmd =? 50 then entry_full args else
   if cmd =? 51 then entry_full_msgids args else
   if cmd =? 52 then entry_full_fixed args else
+  if cmd =? 90 then entry_run args else
+  if cmd =? 91 then entry_write_set args else
+  if cmd =? 92 then entry_static args else
+  if cmd =? 93 then entry_matrix args else
+  if cmd =? 94 then entry_static_detail args else
   [-999].
